@@ -459,12 +459,28 @@ E2E_MARKS = ["slow", "gpu", "wip"]
 
 
 def select_e2e_cases(rng, n):
+    """Projects for real builds with -k / -m; most have a task generator whose children (names / markers making the formulas true
+    for some and false for others) only exist once the generator has run."""
     cases = []
     for k in range(n):
-        names = _after_names(rng, rng.randint(2, 4))
+        names = _after_names(rng, rng.randint(1, 3))
         tasks = [{"func": nm, "name": nm, "attrs": [], "markers": sorted(set(rng.sample(E2E_MARKS, rng.choice([0, 0, 1, 2]))))} for nm in names]
-        cases.append({"mod": f"s{k}", "tasks": tasks, "all_markers": E2E_MARKS, "queries": project_queries(rng, tasks, e2e=True),
-                      "hashseed": rng.randrange(1, 4_000_000_000)})
+        case = {"mod": f"s{k}", "tasks": tasks, "all_markers": E2E_MARKS, "hashseed": rng.randrange(1, 4_000_000_000)}
+        if k == 0 or rng.random() < 0.7:
+            tails = rng.sample(["alpha", "beta", "gamma", "delta"], rng.randint(2, 3))
+            gm = sorted(set(rng.sample(E2E_MARKS, rng.choice([0, 1]))))
+            children = [{"func": f"task_child_{t}", "markers": sorted(set(rng.sample(E2E_MARKS, rng.choice([0, 1, 1]))))} for t in tails]
+            case["generator"] = {"func": "task_gen_main", "markers": gm, "children": children}
+            one, other = tails[0], tails[-1]
+            gmk = gm[0] if gm else "task"       # a marker expression under which the generator itself runs
+            cm = next((c["markers"][0] for c in children if c["markers"]), "slow")
+            qs = [[f"gen or {one}", ""], ["gen", ""], [f"gen or child and not {other}", ""], ["", f"{gmk} and not {cm}" if gmk != cm else gmk],
+                  [f"gen or {one}", "task"], ["gen or child", f"{gmk} or {cm}"], [f"not {one}", ""], ["", ""], [f"{one}", ""]]
+            static_q = project_queries(rng, tasks, e2e=True)
+            case["queries"] = qs[:3] + [list(q) for q in rng.sample(qs[3:], 3)] + static_q[:1]
+        else:
+            case["queries"] = project_queries(rng, tasks, e2e=True)
+        cases.append(case)
     return cases
 
 
